@@ -349,3 +349,60 @@ def singledispatch_registry(tree: ast.Module, fname: str) -> dict[str, ast.AST]:
             if n.name == fname and any("singledispatch" in x for x in decorators(n)):
                 reg["default"] = n
     return reg
+
+
+EAGER_CONSUMERS = {
+    "list", "tuple", "set", "frozenset", "dict", "sorted", "any", "all", "sum", "max", "min", "len", "next",
+    "vec.vector", "vec.v", "lmap.map", "lmap.hash_map", "lset.set", "lset.s", "llist.list", "llist.l", "lqueue.queue",
+    "collections.deque", "deque", "collections.Counter",
+}
+LAZY_CALLS = {
+    "map", "filter", "zip", "enumerate", "chain", "itertools.chain", "chain.from_iterable", "itertools.chain.from_iterable",
+    "reversed", "islice", "itertools.islice", "starmap", "itertools.starmap", "iter", "partition",
+}
+
+
+def lazy_escapes(with_node: ast.With, mentions: str = "ctx"):
+    """Lazy expressions (generator expressions, map/filter/zip/chain... calls, lambdas) in the body
+    of `with_node` that mention the name `mentions` and are not consumed before the block ends.
+    Consumed = argument of an eager constructor / str.join / list.extend, `*`-spread into a call,
+    iterated by a `for` or a list/set/dict comprehension, or unpacked by a tuple assignment.
+    Yields (node, how) for each escape."""
+    ctxexprs = [i.context_expr for i in with_node.items]
+    for st in with_node.body:
+        for n in ast.walk(st):
+            lazy = isinstance(n, (ast.GeneratorExp, ast.Lambda)) or (isinstance(n, ast.Call) and (dotted(n.func) or "") in LAZY_CALLS)
+            if not lazy or any(n is c for c in ctxexprs):
+                continue
+            if not any(isinstance(x, ast.Name) and x.id == mentions for x in ast.walk(n)):
+                continue
+            par = parent(n)
+            if isinstance(n, ast.Lambda):
+                # a lambda is only a problem when stored or returned; as a call argument it runs (or not) inside the call
+                if isinstance(par, (ast.Assign, ast.AnnAssign, ast.Return, ast.keyword)) and not isinstance(parent(par), ast.Call):
+                    yield n, f"a lambda is bound by `{un(par)[:60]}`"
+                continue
+            if isinstance(par, ast.Call) and any(n is a for a in par.args):
+                f = dotted(par.func) or un(par.func)
+                if f in EAGER_CONSUMERS or f.endswith(".join") or f.endswith(".extend") or f.endswith(".update"):
+                    continue
+                if f in LAZY_CALLS:
+                    continue  # judged at the enclosing lazy call
+                if f.split(".")[-1][:1].isupper():
+                    yield n, f"it is stored, unconsumed, by the constructor `{f}(...)`"
+                # a plain helper function consumes (or not) during the call, inside the block
+            elif isinstance(par, ast.Starred):
+                continue
+            elif isinstance(par, (ast.For, ast.AsyncFor)) and par.iter is n:
+                continue
+            elif isinstance(par, ast.comprehension) and par.iter is n:
+                comp = parent(par)
+                if isinstance(comp, ast.GeneratorExp):
+                    continue  # judged at the enclosing generator expression
+                continue
+            elif isinstance(par, ast.Assign) and all(isinstance(t, (ast.Tuple, ast.List)) for t in par.targets):
+                continue
+            elif isinstance(par, ast.YieldFrom):
+                continue
+            else:
+                yield n, f"it is bound or passed on by `{un(par)[:60]}`"
